@@ -24,6 +24,7 @@ type deferRec struct {
 }
 
 type State struct {
+	localNames map[string]Term // constants naming large local values (see localEnv)
 	fe      *FnExec
 	ctx     Ctx
 	heap    map[string]Term
@@ -128,6 +129,12 @@ func (st *State) clone() *State {
 	for k, v := range st.callNum {
 		n.callNum[k] = v
 	}
+	if st.localNames != nil {
+		n.localNames = make(map[string]Term, len(st.localNames))
+		for k, v := range st.localNames {
+			n.localNames[k] = v
+		}
+	}
 	n.callLog = make(map[string]callRec, len(st.callLog))
 	for k, v := range st.callLog {
 		n.callLog[k] = v
@@ -174,6 +181,13 @@ func (st *State) define(prefix string, t Term) Term {
 		return t
 	}
 	name := st.fe.freshName(prefix)
+	if len(t.S) > 120 {
+		// a large term gets a constant of its own (an equation, not a macro): solvers
+		// expand define-fun eagerly, which copies the term into every quantifier body
+		// that mentions the name and defeats trigger matching
+		st.ctx = st.ctx.Decl("(declare-const " + name + " " + t.Sort.String() + ")\n(assert (= " + name + " " + t.S + "))")
+		return Term{name, t.Sort}
+	}
 	st.ctx = st.ctx.Decl("(define-fun " + name + " () " + t.Sort.String() + " " + t.S + ")")
 	return Term{name, t.Sort}
 }
